@@ -9,20 +9,24 @@ def mjob(name, tgt, flav, ranks, args=(), **kw):
     # Every mpirun gets its own Open MPI session directory base: concurrent mpiruns that all create /tmp/ompi.<host>.<uid>
     # race in mkdir ("A call to mkdir was unable to create the desired directory ... File exists") and die before the harness starts.
     env = dict(kw.pop('env', {})); env['OMPI_MCA_orte_tmpdir_base'] = '/tmp/vf-ompi/C11-' + name
+    # A distributed operation that never returns does not "equal the serial operation": a hang that reproduces on the retry
+    # is attributed to the open case and reported as a violation (key hang:<sub>).  Timeouts are >= 80x the measured job time.
+    kw.setdefault('hang_is_violation', True)
     return job(name, tgt, flav, mpi=ranks, args=list(args), env=env, **kw)
 
 def c11_jobs(tier):
     q = tier == 'quick'
+    TO = 600 if q else 3600
     js = []
     # exhaustive partition pairs: only meaningful on <= 4 ranks (the harness skips the sub-space above); shards are separate jobs (own session dir)
     for r, sh in ((1, 1), (2, 1), (3, 2), (4, 4)):
         for k in range(sh):
-            js.append(mjob('exh-r%d-s%d' % (r, k), 'c11', 'mpi-plain', r, ['--sub', 'exhaustive'] + (['--shard', '%d/%d' % (k, sh)] if sh > 1 else []), timeout=3600))
+            js.append(mjob('exh-r%d-s%d' % (r, k), 'c11', 'mpi-plain', r, ['--sub', 'exhaustive'] + (['--shard', '%d/%d' % (k, sh)] if sh > 1 else []), timeout=TO))
     ranks = (1, 2, 3, 5, 8) if q else (1, 2, 3, 4, 5, 6, 7, 8)
     for r in ranks:
-        js.append(mjob('rnd-r%d' % r, 'c11', 'mpi-plain', r, ['--sub', 'random'], timeout=3600))
+        js.append(mjob('rnd-r%d' % r, 'c11', 'mpi-plain', r, ['--sub', 'random'], timeout=TO))
     for r in ((3,) if q else (2, 4, 7)):
-        js.append(mjob('asan-r%d' % r, 'c11', 'mpi-asan', r, ['--exh_full=3', '--exh_stride=23'] if q else ['--exh_full=4', '--exh_stride=11'], timeout=3600))
+        js.append(mjob('asan-r%d' % r, 'c11', 'mpi-asan', r, ['--exh_full=3', '--exh_stride=23'] if q else ['--exh_full=4', '--exh_stride=11'], timeout=TO))
     return js
 
 PROPS['C11'] = dict(
